@@ -26,11 +26,25 @@ pub mod trap {
     use std::marker::PhantomData;
     #[derive(Clone, Copy, Debug)]
     pub struct TrapHandlerRegs { pub rip: u64, pub rsp: u64, pub rbp: u64, pub rdi: u64, pub rsi: u64 }
-    pub struct CoroutineTrapHandler<Return> { pub(crate) p: PhantomData<Return> }
+    /// `base`/`limit`: the stack the coroutine was created with (corosensei knows no other)
+    pub struct CoroutineTrapHandler<Return> { pub(crate) p: PhantomData<Return>, pub(crate) base: usize, pub(crate) limit: usize }
+    /// the value the trap closure produced, byte-copied (the harness knows the coroutine's return type)
+    pub static mut TRAP_RESULT: [u8; 32] = [0xA5; 32];
+    pub static mut TRAP_SETUPS: usize = 0x7501;
     impl<Return> CoroutineTrapHandler<Return> {
-        pub unsafe fn setup_trap_handler<F: FnOnce() -> Return + 'static>(&self, _f: F) -> TrapHandlerRegs {
+        /// contract: the closure is what the coroutine will "return" once the faulting thread has been redirected;
+        /// the shim evaluates it at once and keeps the outcome for the harness
+        pub unsafe fn setup_trap_handler<F: FnOnce() -> Return + 'static>(&self, f: F) -> TrapHandlerRegs {
+            let r = f();
+            let n = std::mem::size_of::<Return>();
+            assert!(n <= 32);
+            std::ptr::copy_nonoverlapping((&raw const r).cast::<u8>(), (&raw mut TRAP_RESULT).cast::<u8>(), n);
+            std::mem::forget(r);
+            TRAP_SETUPS += 1;
             TrapHandlerRegs { rip: 1, rsp: 1, rbp: 1, rdi: 1, rsi: 1 }
         }
+        /// corosensei's own check: the initial stack only, guard page included
+        pub fn stack_ptr_in_bounds(&self, ptr: usize) -> bool { self.limit <= ptr && ptr < self.base }
     }
 }
 pub enum CoroutineResult<Yield, Return> { Yield(Yield), Return(Return) }
@@ -67,7 +81,7 @@ impl<Input, Yield, Return, Stack: stack::Stack> Coroutine<Input, Yield, Return, 
     pub fn started(&self) -> bool { self.started }
     pub fn done(&self) -> bool { self.done }
     pub unsafe fn force_reset(&mut self) { self.started = false; }
-    pub fn trap_handler(&self) -> trap::CoroutineTrapHandler<Return> { trap::CoroutineTrapHandler { p: PhantomData } }
+    pub fn trap_handler(&self) -> trap::CoroutineTrapHandler<Return> { trap::CoroutineTrapHandler { p: PhantomData, base: self.stack.base().get(), limit: self.stack.limit().get() } }
 }
 pub fn on_stack<F: FnOnce() -> R, R>(_stack: impl stack::Stack, f: F) -> R { f() }
 #[allow(dead_code)]
